@@ -214,7 +214,7 @@ static void finish_opts(AppOpts &a, const std::string &rpath, const std::string 
 }
 // Interface names for link-local servers.  The sandbox only has "lo"; the channel's interface callbacks are the documented extension point
 // (struct ares_socket_functions_ex), so the C16 channels get a table of realistic names.  No I/O happens in this harness: the socket members fail.
-static const char *kIfaces[] = {"", "lo", "br-lan", "eth0.100", "wl_0", "eth1"};
+static const char *kIfaces[] = {"", "lo", "br-lan", "eth0.100", "wl_0", "eth1", "wlx00c0ca123456"};   // the last one has IF_NAMESIZE-1 characters, the longest a system allows
 static ares_socket_t vi_socket(int, int, int, void *) { return ARES_SOCKET_BAD; }
 static int vi_close(ares_socket_t, void *) { return 0; }
 static int vi_sso(ares_socket_t, ares_socket_opt_t, const void *, ares_socklen_t, void *) { return 0; }
@@ -464,7 +464,7 @@ static std::string gen_case(const std::string &prop, const std::string &kind, co
   for (unsigned i = 0; i < nsets; i++) { static const char *how[] = {"csv", "portscsv", "legacy", "legacyports"}; std::string h = how[c.pick(4)]; std::string csv; unsigned n = 1 + c.pick(4);
     for (unsigned q = 0; q < n; q++) { std::string ip = gen_ip(c); bool v6 = ip.find(':') != std::string::npos; std::string item;
       // link-local servers need an interface (names from kIfaces, also by index).  (Only the two text setters can express one.)
-      if ((h == "csv" || h == "portscsv") && c.chance(1, 6)) { std::string ll = "fe80::" + std::to_string(1 + c.pick(50)); static const char *ifs[] = {"lo", "br-lan", "eth0.100", "wl_0", "eth1", "3", "1"}; std::string ifn = ifs[c.pick(7)]; unsigned f = c.pick(3); item = f == 0 ? ll + "%" + ifn : (f == 1 ? "[" + ll + "]:" + gen_port(false) + "%" + ifn : "dns://[" + ll + "%" + ifn + "]:" + gen_port(false) + "?tcpport=" + gen_port(false)); csv += (q ? "," : "") + item; continue; }
+      if ((h == "csv" || h == "portscsv") && c.chance(1, 6)) { std::string ll = "fe80::" + std::to_string(1 + c.pick(50)); static const char *ifs[] = {"lo", "br-lan", "eth0.100", "wl_0", "eth1", "3", "1", "wlx00c0ca123456", "6"}; std::string ifn = ifs[c.pick(9)]; unsigned f = c.pick(3); item = f == 0 ? ll + "%" + ifn : (f == 1 ? "[" + ll + "]:" + gen_port(false) + "%" + ifn : "dns://[" + ll + "%" + ifn + "]:" + gen_port(false) + "?tcpport=" + gen_port(false)); csv += (q ? "," : "") + item; continue; }
       if (h == "legacy") item = ip; else if (h == "legacyports") item = ip + "|" + gen_port(true) + "|" + gen_port(true);
       else { unsigned f = c.pick(5); if (f == 0) item = ip; else if (f == 1) item = "[" + ip + "]:" + gen_port(false); else if (f == 2) item = "dns://" + (v6 ? "[" + ip + "]" : ip) + ":" + gen_port(false) + "?tcpport=" + gen_port(false); else if (f == 3 && !v6) item = ip + ":" + gen_port(false); else item = ip; }
       csv += (q ? "," : "") + item; }
